@@ -136,7 +136,9 @@ def tweak(t, rng, tg):
             if rng.random() < 0.2:
                 x[8].insert(0, impl.T("section", None, [impl.T("para", words(2))]))
         elif nm == "keywordSet" and rng.random() < 0.7:
-            x[8] = [impl.T("keyword", f"k{i}") for i in range(rng.choice([1, 2, 3, 4, 5]))]
+            x[8] = [impl.T("keyword", f"k{i}") for i in range(rng.choice([1, 2, 3, 4, 4, 5]))]
+            if rng.random() < 0.5:
+                x[8].append(impl.T("keywordThesaurus", "LTER"))      # allowed once per set; it is not a keyword
         elif nm in PARTIES and rng.random() < 0.7:
             x[8] = [k for k in x[8] if k[1] not in ("userId", "electronicMailAddress")]
             if rng.random() < 0.6:
@@ -164,7 +166,7 @@ def tweak(t, rng, tg):
         if x[1] == "dataset" and rng.random() < 0.3:
             ks = [k for k in x[8] if k[1] == "keywordSet"]
             if ks:
-                k2 = impl.T("keywordSet", None, [impl.T("keyword", "z")] * rng.choice([1, 3]))
+                k2 = impl.T("keywordSet", None, [impl.T("keyword", "z")] * rng.choice([1, 2, 3]) + ([impl.T("keywordThesaurus", "T")] if rng.random() < 0.5 else []))
                 x[8].insert(x[8].index(ks[0]), k2)
     gen.strip_ids(t)
 
@@ -176,7 +178,7 @@ def run_impl(t):
     sentinel = ("sentinel",)
     ws = [sentinel]
     try:
-        evaluate.tree(root, ws)
+        impl.limited(evaluate.tree, root, ws)
     except Exception as e:
         return None, f"evaluate.tree raised {type(e).__name__}: {e}"
     if ws[0] is not sentinel:
